@@ -159,7 +159,7 @@ TypeOK == /\ exp.open \in {"opens", "parks"}
 UndamagedPersists == (Damage(file) = 0 /\ op \in AddOps) => exp = [open |-> "opens", mode |-> "persist", untouched |-> FALSE]
 (* zero-valued records are records like any other *)
 ValuesIrrelevant  == exp = Expected([file EXCEPT !.vals = "nz"], op) /\ Lookup(file, op) = Lookup([file EXCEPT !.vals = "nz"], op)
-ParkedMeansMemory == exp.open = "parks" => exp.mode = "memory" /\ exp.untouched
+ParkedMeansMemory == exp.open = "parks" => (op \in AddOps => exp.mode = "memory") /\ exp.untouched
 (* an amount is kept in memory only because of some damage, and a cycle is only  *)
 (* possible where a link was damaged                                             *)
 MemoryHasCause == exp.mode = "memory" => Damage(file) > 0
@@ -169,7 +169,7 @@ OtherBucketIrrelevant ==
     /\ op = "addN" => ExpectMode(file, op) = ExpectMode([file EXCEPT !.headE = "ok", !.nlenC = "ok", !.nextC = "ok", !.nextE = "ok"], op)
     /\ op # "addN" => ExpectMode(file, op) = ExpectMode([file EXCEPT !.headN = "zero"], op)
 (* a lookup that finds its record does not depend on the allocation limit *)
-FoundIgnoresLimit == (~TooShort(file) /\ file.hdr = "ok" /\ Lookup(file, op)[1] = "found" /\ ~Lookup(file, op)[2]) => exp.mode = "persist"
+FoundIgnoresLimit == (op \in AddOps /\ ~TooShort(file) /\ file.hdr = "ok" /\ Lookup(file, op)[1] = "found" /\ ~Lookup(file, op)[2]) => exp.mode = "persist"
 (* the walk is total: it always ends in one of the four outcomes *)
 WalkTotal == Lookup(file, op)[1] \in {"found", "absent", "invalid", "cycle"}
 Sane == TypeOK /\ UndamagedPersists /\ ValuesIrrelevant /\ ParkedMeansMemory /\ MemoryHasCause /\ CycleHasCause /\ OtherBucketIrrelevant /\ FoundIgnoresLimit /\ WalkTotal
